@@ -208,13 +208,22 @@ def handleEnc (ts : List String) : String :=
     "M " ++ m ++ " | H " ++ (if obs == [m] then "1" else "0")
   | none => "bad-line"
 
-/-- `noparams <what> <absent|null|empty> => <class>`: nothing is carried, whichever way it is spelt -/
+/-- `noparams <what> <absent|null|empty> => <class>`: nothing is carried, whichever way it is spelt.
+    `M` is what the envelope model of the current code says for the reply-level cases (the method-level
+    ones are decoded by `receive_call`, whose model is exercised by `calldec`); `H` is the demand. -/
 def handleNoParams (ts : List String) : String :=
   match ts with
-  | [_, what, _, "=>", obs] =>
+  | [_, what, how, "=>", obs] =>
     let want := if what = "svc-method" || what = "enum-method" || what = "unit-reply" then "ok"
       else if what = "svc-error" then "se:PermissionDenied" else "me:Y"
-    "M " ++ want ++ " | H " ++ (if obs = want then "1" else "0")
+    let ps : Members := if how = "absent" then [] else if how = "null" then [("parameters", .null)] else [("parameters", .obj [])]
+    let e1 := parseEnum "x|Y()|Z(code:i32)"
+    let model :=
+      if what = "unit-reply" then classTok e1 (classify svc .unit e1 (.obj ps))
+      else if what = "svc-error" then classTok e1 (classify svc (parseP "struct(name:str)") e1 (.obj ([("error", .str "org.varlink.service.PermissionDenied" false)] ++ ps)))
+      else if what = "derived-error" then classTok e1 (classify svc (parseP "struct(name:str)") e1 (.obj ([("error", .str "x.Y" false)] ++ ps)))
+      else want
+    "M " ++ model ++ " | H " ++ (if obs = want then "1" else "0")
   | _ => "bad-line"
 
 def handle (ts : List String) : String :=
